@@ -1,5 +1,6 @@
 import GeomV.C01.Model
 import GeomV.C01.Cert
+import GeomV.C01.Prep
 /-!
 Driver for C01.  `geomv_c01 judge` reads `<case> => <implementation's answer>` lines and prints
   OK <class> | DIFF <class> <why> (implementation ≠ model) | SPEC <class> <why> (answer violates Spec).
@@ -82,21 +83,45 @@ def configOf (A B : Operand) : String :=
         else if aInB || bInA then pre ++ "nested" else pre ++ "disjoint"
   | _, _ => "empty"
 
-/-- ` pw <n> (<xbits> <ybits> <answer>)*` after the result: the library's `Point.Within(result)` answers -/
-def parseProbes : Tok → Option (List (P × WStatus))
-  | [] => some []
-  | "pw" :: _ :: t =>
-    let rec go : Nat → Tok → Option (List (P × WStatus))
-      | _, [] => some []
-      | 0, _ => none
-      | fuel + 1, x :: y :: s :: t => do
+/-- ` pw <n> (<xbits> <ybits> <answer>)*` after the result: the library's `Point.Within(result)` answers at
+the harness's own probes; then optionally ` cw <n> <digits>`: its answers at the points of the `lean:prep` stage -/
+def parseProbes : Tok → Option (List (P × WStatus) × Tok)
+  | [] => some ([], [])
+  | "cw" :: t => some ([], "cw" :: t)
+  | "pw" :: n :: t =>
+    let rec go : Nat → Tok → Option (List (P × WStatus) × Tok)
+      | 0, t => some ([], t)
+      | k + 1, x :: y :: s :: t => do
         let x ← parseU64 x; let y ← parseU64 y
         let p ← ptOfBits ⟨x, y⟩
         let st ← match s with | "0" => some WStatus.outside | "1" => some .inside | "2" => some .onEdge | _ => none
-        let r ← go fuel t
-        pure ((p, st) :: r)
+        let (r, t) ← go k t
+        pure ((p, st) :: r, t)
       | _, _ => none
-    go (t.length + 1) t
+    do let n ← n.toNat?; go n t
+  | _ => none
+
+/-- the points appended to the case line by the `lean:prep` stage: ` ## <n> (<xbits> <ybits>)*` -/
+def parseAsked : Tok → Option (List P)
+  | [] => some []
+  | "##" :: n :: t =>
+    let rec go : Nat → Tok → Option (List P)
+      | 0, [] => some []
+      | k + 1, x :: y :: t => do
+        let x ← parseU64 x; let y ← parseU64 y
+        let p ← ptOfBits ⟨x, y⟩
+        let r ← go k t
+        pure (p :: r)
+      | _, _ => none
+    do let n ← n.toNat?; go n t
+  | _ => none
+
+/-- ` cw <n> <digits>`: one digit (0 Outside, 1 Inside, 2 OnEdge) per asked point -/
+def parseCellAnswers : Tok → Option (List WStatus)
+  | [] => some []
+  | ["cw", _, ds] => ds.toList.mapM fun c => match c with
+      | '0' => some WStatus.outside | '1' => some .inside | '2' => some .onEdge | _ => none
+  | ["cw", "0"] => some []
   | _ => none
 
 def showW : WStatus → String
@@ -107,7 +132,7 @@ def ringClosed (r : Ring) : Bool :=
   | [] => false
   | h :: t => (h :: t).getLast? = some h
 
-def judgeOp (cap : Nat) (op : Op) (A B : Operand) (rhs : Tok) : String :=
+def judgeOp (cap : Nat) (op : Op) (A B : Operand) (rhs : Tok) (askTok : Tok := []) (wantCells : Bool := false) : String :=
   let ext := extentOf A.rings B.rings
   let scale := if ext < 1 / 1024 then "-tiny" else if ext > 32768 then "-huge" else ""
   let cls := s!"{opName op}-{kindName A}.{kindName B}-{configOf A B}-{pathOf A B op}{scale}"
@@ -150,15 +175,36 @@ def judgeOp (cap : Nat) (op : Op) (A B : Operand) (rhs : Tok) : String :=
           -- "lies in the result" as answered by the LIBRARY (Point.Within on the result), at the
           -- harness's probe points that keep twice the margin from every input edge (every result
           -- edge lies within the margin of an input edge when the certificate is accepted)
-          let wbad := if ok then
+          let wmsg (tag : String) (p : P) (s : WStatus) :=
+            s!"SPEC {cls} library-Within-on-result{tag} p={showP p} Point.Within(result)={showW s} A={member A p} B={member B p} evenodd(result)={memberRes R p}"
+          -- the points of the `lean:prep` stage (one in every cell of the operands' arrangement:
+          -- `C01_cells_asked`), re-derived here and compared with what the harness was given
+          let noResult := match R with | none => true | _ => false
+          let (wbad, covered) : Option String × Bool := if ok then
               (match parseProbes ptoks with
-               | some pr => (withinCheck (2 * mg) op A B pr).map fun (p, s) =>
-                   s!"SPEC {cls} library-Within-on-result p={showP p} Point.Within(result)={showW s} A={member A p} B={member B p} evenodd(result)={memberRes R p}"
-               | none => some s!"DIFF {cls} unparsable-within-probes")
-            else none
+               | some (pr, rest) =>
+                 match withinCheck (2 * mg) op A B pr with
+                 | some (p, s) => (some (wmsg "" p s), false)
+                 | none =>
+                   match parseAsked askTok, parseCellAnswers rest with
+                   | some asked, some ans =>
+                     if asked.isEmpty then (none, false)
+                     else if ans.isEmpty && noResult then
+                       -- nil result: the library cannot be asked; the certificate says every cell is outside
+                       (none, false)
+                     else if ans.length ≠ asked.length then (some s!"DIFF {cls} {ans.length}-cell-answers-for-{asked.length}-points", false)
+                     else
+                       match withinCheck (2 * mg) op A B (asked.zip ans) with
+                       | some (p, s) => (some (wmsg "-cell" p s), false)
+                       | none =>
+                         let ev := prepEvents A B
+                         (none, prepCheck A B ev && prepPoints A B ev == asked)
+                   | _, _ => (some s!"DIFF {cls} unparsable-cell-answers", false)
+               | none => (some s!"DIFF {cls} unparsable-within-probes", false))
+            else (none, false)
           if let some w := wbad then w
           else if m ≠ R then s!"DIFF {cls} model-differs"
-          else if cert then s!"OK {cls}"
+          else if cert then (if covered || noResult || !wantCells then s!"OK {cls}" else s!"OK {cls}-cellsunasked")
           else if ok then s!"OK {cls}-uncertified" else s!"OK {cls}-outside-quantifier"
   | _ => s!"DIFF {cls} bad-answer"
 
@@ -209,22 +255,49 @@ def splitOn2 (t : Tok) : List Tok :=
   let (cur, acc) := t.foldl (fun (st : Tok × List Tok) x => if x = ";;" then ([], st.2 ++ [st.1]) else (st.1 ++ [x], st.2)) ([], [])
   acc ++ [cur]
 
+/-- `A | B` and the tokens that follow -/
+def twoRest (t : Tok) : Option (Operand × Operand × Tok) := do
+  let (a, t) ← parseOperand t
+  let t ← match t with | "|" :: t => some t | _ => none
+  let (b, t) ← parseOperand t
+  let a ← a; let b ← b
+  pure (a, b, t)
+
+/-- `geomv_c01 prep`: an `op` line within the quantifier gets the sample points of ALL cells of the
+operands' arrangement appended (` ## <n> (<xbits> <ybits>)*`) when the hand-over checker accepts them
+(`C01_cells_asked`), they are float64 values, and there are at most `capPts` of them -/
+def prepLine (capPts : Nat) (line : String) : String :=
+  match tokens line with
+  | k :: o :: rest =>
+    if k = "op" || k = "opx" then
+      match opOf o, twoRest rest with
+      | some _, some (A, B, []) =>
+        if Valid A && Valid B && GeneralPosition A B then
+          let evs := prepEvents A B
+          if prepCheck A B evs then
+            let pts := prepPoints A B evs
+            if pts.length ≤ capPts then
+              match pts.mapM (fun p => do let x ← ratToBits p.x; let y ← ratToBits p.y; pure [u64Hex x, u64Hex y]) with
+              | some bs => line ++ s!" ## {pts.length} " ++ " ".intercalate bs.flatten
+              | none => line
+            else line
+          else line
+        else line
+      | _, _ => line
+    else line
+  | _ => line
+
 def judgeLine (cap : Nat) (line : String) : String :=
   let (lhs, rhs) := splitArrow (tokens line)
-  let two (t : Tok) : Option (Operand × Operand) := do
-    let (a, t) ← parseOperand t
-    let t ← match t with | "|" :: t => some t | _ => none
-    let (b, _) ← parseOperand t
-    let a ← a; let b ← b
-    pure (a, b)
+  let two (t : Tok) : Option (Operand × Operand) := (twoRest t).map fun (a, b, _) => (a, b)
   match lhs with
   | "op" :: o :: t =>
-    match opOf o, two t with
-    | some op, some (A, B) => judgeOp cap op A B rhs
+    match opOf o, twoRest t with
+    | some op, some (A, B, ask) => judgeOp cap op A B rhs ask true
     | _, _ => "DIFF parse bad-case-line"
   | "opx" :: o :: t =>   -- exhaustive: every cell of the slab decomposition and of the grid
-    match opOf o, two t with
-    | some op, some (A, B) => judgeOp 1000000 op A B rhs
+    match opOf o, twoRest t with
+    | some op, some (A, B, ask) => judgeOp 1000000 op A B rhs ask true
     | _, _ => "DIFF parse bad-case-line"
   | "cc" :: o :: t =>
     -- the same call made while other goroutines run the operations on unrelated operands: the
@@ -272,4 +345,11 @@ def main (args : List String) : IO Unit := do
   | ["judge"] => forEachLine fun l => out.putStrLn (judgeLine 1000000 l)
   | ["judge", n] => forEachLine fun l => out.putStrLn (judgeLine (n.toNat?.getD 1000000) l)
   | ["cert"] => forEachLine fun l => out.putStrLn (certLine l)
+  | ["prep"] =>
+    -- every `op` line up to the 4000th, then one in six (the thorough tier has ~60 000)
+    let cnt ← IO.mkRef 0
+    forEachLine fun l => do
+      let n ← cnt.get
+      cnt.set (n + 1)
+      out.putStrLn (if n < 4000 || n % 6 == 0 then prepLine 1500 l else l)
   | _ => IO.eprintln "usage: geomv_c01 judge [cap]"
